@@ -1,4 +1,4 @@
-"""CLI: python -m corsim check <ID> [--tier quick|thorough] | replay <file> | selftest determinism|sensitivity|stub"""
+"""CLI: python -m corsim check <ID> [--tier quick|thorough] | replay <file> | selftest determinism|sensitivity|stub|models|simfs"""
 import argparse
 import os
 import sys
@@ -20,7 +20,7 @@ def main(argv=None) -> int:
     r.add_argument("path")
     r.add_argument("--repo", default=None)
     s = sub.add_parser("selftest")
-    s.add_argument("what", choices=["determinism", "sensitivity", "stub", "models"])
+    s.add_argument("what", choices=["determinism", "sensitivity", "stub", "models", "simfs"])
     s.add_argument("--props", default=None)
     s.add_argument("--runs", type=int, default=None)
     s.add_argument("--only", default=None)
